@@ -183,6 +183,7 @@ class _LocalFn:
             env[p_] = Folder(dict(self.env), f.repo, f.mod, f.cls, f.hook).fold(defaults[p_])
         ev = Evaluator(env, f.repo, f.mod, f.cls, f.hook)
         ev.depth = f.depth + 1
+        ev.outer_env = self.env  # type: ignore
         r = ev.run(body_without_docstring_(self.node))
         if any(isinstance(n, (ast.Yield, ast.YieldFrom)) for n in ast.walk(self.node)):
             return list(ev.yielded)  # a local generator, evaluated eagerly
@@ -778,6 +779,8 @@ class Folder:
 
     def _call_cases(self, e: ast.Call) -> Any:
         name = dotted(e.func)
+        if name is not None and name.split(".")[0] in ("_logger", "logger", "_log") and name.split(".")[0] not in self.env and name.split(".")[-1] == "isEnabledFor":
+            return False  # logging is off in every evaluation: what such a test guards is log output
         if name is not None and self.repo is not None and self.mod is not None and name.split(".")[0] not in self.env and isinstance(e.func, (ast.Name, ast.Attribute)):
             try:
                 r0 = self.repo.resolve_expr(self.mod, e.func, self.cls)
